@@ -19,6 +19,8 @@ func c12NameExprs() []string {
 			f+"(namespace::*)", f+"(following::node())", f+"(//@*)", f+"(//namespace::*)", f+"(//processing-instruction())", f+"(//comment())", f+"(//text())", f+"(/)", f+"(/*)", f+"(*)", f+"(../@*)",
 			f+"(1)", f+"('a')", f+"(true())", f+"(., .)", "string-length("+f+"())", f+"(//*[last()])", f+"(//*[2] | //*[1])")
 	}
+	// a caller-supplied node-set that is neither ascending nor descending
+	out = append(out, "name($u)", "local-name($u)", "namespace-uri($u)", "string($u)", "name($u | $u)", "count($u)", "name($d)", "local-name($d)")
 	out = append(out, "count(.)", "count(/)", "count(//node())", "count(@*)", "count(namespace::*)", "count(ancestor::node())", "count(/none)", "count(1)", "count('a')", "count(true())", "count()", "count(., .)",
 		"count(//*) + count(//@*)", "count(. | ..)", "name() = local-name()", "namespace-uri() = ''", "count(//*[name() = 'a'])", "count(//*[local-name() = 'a'])", "count(//@*[namespace-uri() != ''])")
 	return out
@@ -102,6 +104,33 @@ func C12(c *run.Check) {
 	}
 	env := EnvSpec{NS: map[string]string{"p": adoc.URI_U, "xml": adoc.XMLNS}}
 	r := newXRunner(c, "C12", env)
+	r.envFor = func(d *adoc.Doc) EnvSpec {
+		// $u: all nodes (any kind) ordered middle, last, first, rest; $d: descending
+		e := env
+		var all []string
+		for _, n := range d.Nodes {
+			if n.Kind != adoc.Root {
+				all = append(all, n.Path())
+			}
+		}
+		var u, dsc []string
+		if len(all) >= 3 {
+			m := len(all) / 2
+			u = append(u, all[m], all[len(all)-1], all[0])
+			for i, p := range all {
+				if i != m && i != len(all)-1 && i != 0 {
+					u = append(u, p)
+				}
+			}
+		} else {
+			u = all
+		}
+		for i := len(all) - 1; i >= 0; i-- {
+			dsc = append(dsc, all[i])
+		}
+		e.Vars = []VarSpec{{Local: "u", Type: "node-set", Nodes: u}, {Local: "d", Type: "node-set", Nodes: dsc}}
+		return e
+	}
 	r.runGrid(len(jobs), func(i int) *adoc.Doc { return adoc.Instantiate(jobs[i].f, jobs[i].deco) }, names, nil)
 	ld := c12LangDocs()
 	r.runGrid(len(ld), func(i int) *adoc.Doc { return ld[i].Clone().Finish() }, langs, nil)
